@@ -219,7 +219,7 @@ archive_acl_add_entry_len_l(struct archive_acl *acl,
 		/* XXX Error XXX */
 		return ARCHIVE_FAILED;
 	}
-	if (name != NULL  &&  *name != '\0' && len > 0) {
+	if (name != NULL  &&  len > 0  &&  *name != '\0') {
 		r = archive_mstring_copy_mbs_len_l(&ap->name, name, len, sc);
 	} else {
 		r = 0;
@@ -1632,7 +1632,7 @@ archive_acl_from_text_nl(struct archive_acl *acl, const char *text,
 		const char *end;
 	} field[6], name;
 
-	const char *s, *st;
+	const char *s, *st, *text_end;
 	int numfields, fields, n, r, sol, ret;
 	int type, types, tag, permset, id;
 	size_t len;
@@ -1655,6 +1655,7 @@ archive_acl_from_text_nl(struct archive_acl *acl, const char *text,
 
 	ret = ARCHIVE_OK;
 	types = 0;
+	text_end = (text != NULL) ? text + length : NULL;
 
 	while (text != NULL && length > 0 && *text != '\0') {
 		/*
@@ -1676,7 +1677,8 @@ archive_acl_from_text_nl(struct archive_acl *acl, const char *text,
 		for (n = fields; n < numfields; ++n)
 			field[n].start = field[n].end = NULL;
 
-		if (field[0].start != NULL && *(field[0].start) == '#') {
+		if (field[0].start != NULL && field[0].start < text_end
+		    && *(field[0].start) == '#') {
 			/* Comment, skip entry */
 			continue;
 		}
@@ -1699,7 +1701,7 @@ archive_acl_from_text_nl(struct archive_acl *acl, const char *text,
 			 */
 			s = field[0].start;
 			len = field[0].end - field[0].start;
-			if (*s == 'd' && (len == 1 || (len >= 7
+			if (len > 0 && *s == 'd' && (len == 1 || (len >= 7
 			    && memcmp((s + 1), "efault", 6) == 0))) {
 				type = ARCHIVE_ENTRY_ACL_TYPE_DEFAULT;
 				if (len > 7)
@@ -2084,7 +2086,8 @@ next_field(const char **p, size_t *l, const char **start,
 		(*p)++;
 		(*l)--;
 	}
-	*sep = **p;
+	/* The text need not be terminated: its end acts as a separator. */
+	*sep = (*l > 0) ? **p : '\0';
 
 	/* Handle in-field comments */
 	if (*sep == '#') {
@@ -2092,7 +2095,7 @@ next_field(const char **p, size_t *l, const char **start,
 			(*p)++;
 			(*l)--;
 		}
-		*sep = **p;
+		*sep = (*l > 0) ? **p : '\0';
 	}
 
 	/* Skip separator. */
